@@ -37,6 +37,12 @@ impl<'a> StatefulPropagationContext<'a> {
     pub open spec fn live(&self) -> Live { self.assignments.live@ }
 }
 
+impl<'a> PropagationContext<'a> {
+    #[verifier::external_body]
+    pub fn is_literal_true(&self, literal: &Literal) -> (r: bool)
+        ensures r ==> forall|a: Asg| #![trigger (self.assignments.live@)(a)] (self.assignments.live@)(a) ==> lit_true(*literal, a)
+    { unimplemented!() }
+}
 impl<'a> PropagationContextMut<'a> {
     #[verifier::external_body]
     pub fn as_stateful_readonly(&mut self) -> (r: StatefulPropagationContext<'_>)
@@ -122,8 +128,13 @@ pub trait Propagator {
     fn detect_inconsistency(&self, context: StatefulPropagationContext) -> (r: Option<PropositionalConjunction>)
         ensures r matches Some(c) ==> valid_conflict(context.live(), |a: Asg| self.constraint(a), c);
 
+    // the incremental state of the propagator reflects the given store (backtracking protocol: the engine calls
+    // `synchronise` on every propagator after a backtrack, whatever the value of a reification literal)
+    spec fn in_sync(&self, live: Live) -> bool;
+
     fn synchronise(&mut self, context: PropagationContext)
-        ensures forall|a: Asg| #[trigger] final(self).constraint(a) == old(self).constraint(a);
+        ensures forall|a: Asg| #[trigger] final(self).constraint(a) == old(self).constraint(a),
+                final(self).in_sync(context.assignments.live@);
 }
 pub open spec fn valid_conflict(live: Live, c: Model, conj: PropositionalConjunction) -> bool {
     (forall|a: Asg| #![trigger live(a)] live(a) ==> conj_holds(conj, a))
